@@ -227,6 +227,14 @@ package algo
 //@ ensures fwd ==> forall(k, 0, j, hitp(c, s + k, p, k, cs, nz))
 //@ ensures !fwd ==> forall(k, 0, j, hitp(c, clen(c) - s - k - 1, p, len(p) - k - 1, cs, nz))
 
+// Word-boundary conditions of 't' terms (ExactMatchBoundary) for the occurrence that starts at text position ts:
+// the first character has a boundary bonus, and the characters around the occurrence are delimiters, white
+// space, or the ends of the line.
+//@ spec func bat(c *util.Chars, i int) int = i == 0 ? bonusBoundaryWhite : bonusS(c, i)
+// (first and last condition separately: the scan learns them at different steps)
+//@ spec func bok1(c *util.Chars, ts int) bool = bat(c, ts) >= 8 && (ts == 0 || cls(at(c, ts - 1)) <= 2)
+//@ spec func bok2(c *util.Chars, m int, ts int) bool = ts + m == clen(c) || cls(at(c, ts + m)) <= 2
+//@ spec func bok(c *util.Chars, m int, ts int) bool = bat(c, ts) >= 8 && (ts == 0 || cls(at(c, ts - 1)) <= 2) && (ts + m == clen(c) || cls(at(c, ts + m)) <= 2)
 //@ func exactMatchNaive
 //@ property C02 C01
 //@ requires text != nil && validChars(text) && validRunes(pattern) && len(pattern) <= 2147483648
@@ -238,9 +246,11 @@ package algo
 //@ ensures forward && len(pattern) > 0 && r0.Start >= 0 ==> forall(k, 0, len(pattern), hitp(text, r0.Start + k, pattern, k, caseSensitive, normalize))
 //@ ensures !forward && len(pattern) > 0 && r0.Start >= 0 ==> forall(k, 0, len(pattern), hitp(text, r0.Start + k, pattern, k, caseSensitive, normalize))
 //@ ensures len(pattern) > 0 && !boundaryCheck && r0.Start < 0 && asciiFuzzyIndex_r0(text, pattern, caseSensitive) >= 0 ==> forall(s, 0, clen(text) - len(pattern) + 1, !occp(text, pattern, caseSensitive, normalize, forward, s, len(pattern)))
+//@ ensures len(pattern) > 0 && boundaryCheck && r0.Start < 0 && asciiFuzzyIndex_r0(text, pattern, caseSensitive) >= 0 ==> forall(s, 0, clen(text) - len(pattern) + 1, !(occp(text, pattern, caseSensitive, normalize, forward, s, len(pattern)) && bok(text, len(pattern), tstart(s, clen(text), len(pattern), forward))))
 //@ note completeness is stated relative to the ASCII pre-filter: that asciiFuzzyIndex returns -1 only when no occurrence exists is not proved (listed as unverified)
 //@ use occp_hits(text, pattern, caseSensitive, normalize, forward, tstart(r0.Start, clen(text), len(pattern), forward), len(pattern))
 //@ use @"index -= pidx" occp_down(text, pattern, caseSensitive, normalize, forward, index - pidx, lenPattern, pidx + 1)
+//@ assert @"index -= pidx" boundaryCheck ==> !(occp(text, pattern, caseSensitive, normalize, forward, index - pidx, lenPattern) && bok(text, lenPattern, tstart(index - pidx, lenRunes, lenPattern, forward)))
 //@ use @"calculateScore(" occp_hits(text, pattern, caseSensitive, normalize, forward, bestPos - lenPattern + 1, lenPattern)
 //@ use @"calculateScore(" occ_g(text, pattern, caseSensitive, normalize, sidx, lenPattern)
 //@ loop 1
@@ -250,6 +260,9 @@ package algo
 //@   invariant 0 <= bonus && bonus <= 10 && -1 <= bestBonus && bestBonus <= 10 && (bestPos < 0) == (bestBonus == -1)
 //@   invariant bestPos >= 0 ==> lenPattern - 1 <= bestPos && bestPos < lenRunes && occp(text, pattern, caseSensitive, normalize, forward, bestPos - lenPattern + 1, lenPattern)
 //@   invariant !boundaryCheck && bestPos < 0 ==> forall(s, 0, index - pidx, !occp(text, pattern, caseSensitive, normalize, forward, s, lenPattern))
+//@   invariant boundaryCheck && bestPos < 0 ==> forall(s, 0, index - pidx, !(occp(text, pattern, caseSensitive, normalize, forward, s, lenPattern) && bok(text, lenPattern, tstart(s, lenRunes, lenPattern, forward))))
+//@   invariant boundaryCheck && forward && pidx > 0 ==> bonus == bat(text, index - pidx) && bok1(text, index - pidx)
+//@   invariant boundaryCheck && !forward && pidx > 0 ==> bok2(text, lenPattern, lenRunes - (index - pidx) - lenPattern)
 //@   decreases (lenRunes - (index - pidx)) * (lenPattern + 1) + (lenPattern - pidx)
 
 // ---------------------------------------------------------------- FuzzyMatchV1
@@ -374,3 +387,32 @@ package algo
 //@ loop 1
 //@   writes ret[*]
 //@   invariant len(ret) == len(runes) && fresh(ret)
+
+// The exported exact matchers are exactMatchNaive without / with the word-boundary conditions.
+//@ func ExactMatchNaive
+//@ property C02 C01
+//@ requires text != nil && validChars(text) && validRunes(pattern) && len(pattern) <= 2147483648
+//@ ensures r1 == nil && (r0.Start < 0 ==> r0.Start == -1 && r0.End == -1)
+//@ ensures len(pattern) > 0 && r0.Start >= 0 ==> r0.End == r0.Start + len(pattern) && r0.End <= clen(text) && forall(k, 0, len(pattern), hitp(text, r0.Start + k, pattern, k, caseSensitive, normalize))
+//@ ensures len(pattern) > 0 && r0.Start < 0 && asciiFuzzyIndex_r0(text, pattern, caseSensitive) >= 0 ==> forall(s, 0, clen(text) - len(pattern) + 1, !occp(text, pattern, caseSensitive, normalize, forward, s, len(pattern)))
+//@ func ExactMatchBoundary
+//@ property C02 C01
+//@ requires text != nil && validChars(text) && validRunes(pattern) && len(pattern) <= 2147483648
+//@ ensures r1 == nil && (r0.Start < 0 ==> r0.Start == -1 && r0.End == -1)
+//@ ensures len(pattern) > 0 && r0.Start >= 0 ==> r0.End == r0.Start + len(pattern) && r0.End <= clen(text) && forall(k, 0, len(pattern), hitp(text, r0.Start + k, pattern, k, caseSensitive, normalize))
+//@ ensures len(pattern) > 0 && r0.Start < 0 && asciiFuzzyIndex_r0(text, pattern, caseSensitive) >= 0 ==> forall(s, 0, clen(text) - len(pattern) + 1, !(occp(text, pattern, caseSensitive, normalize, forward, s, len(pattern)) && bok(text, len(pattern), tstart(s, clen(text), len(pattern), forward))))
+
+// EqualMatch (^t$): the text, without the leading/trailing white space the pattern does not itself start/end
+// with, must have exactly the pattern's length; a reported range is that trimmed text.  (Whether the
+// characters are equal is decided through string conversion and strings.ToLower in the non-normalising
+// branch: library semantics, not specified here.)
+//@ func EqualMatch
+//@ property C02
+//@ requires text != nil && validChars(text) && validRunes(pattern)
+//@ ensures r1 == nil && (r0.Start < 0 ==> r0.Start == -1 && r0.End == -1)
+//@ ensures r0.Start >= 0 ==> len(pattern) > 0 && r0.End == r0.Start + len(pattern) && r0.End <= clen(text)
+//@ ensures r0.Start >= 0 ==> r0.Start == (isSpace(pattern[0]) ? 0 : leadws(text, 0)) && clen(text) - r0.End == (isSpace(pattern[len(pattern)-1]) ? 0 : trailws(text, clen(text)))
+//@ ensures r0.Start >= 0 && normalize ==> forall(k, 0, len(pattern), norm(pattern[k]) == norm(caseSensitive ? at(text, r0.Start + k) : uto(1, at(text, r0.Start + k))))
+//@ loop 1
+//@   invariant len(runes) == clen(text) && forall(j, 0, len(runes), runes[j] == at(text, j)) && 0 <= trimmedLen && trimmedLen + lenPattern + trimmedEndLen == clen(text) && 0 <= trimmedEndLen
+//@   invariant match ==> forall(k, 0, iter, norm(pattern[k]) == norm(caseSensitive ? at(text, trimmedLen + k) : uto(1, at(text, trimmedLen + k))))
